@@ -58,7 +58,9 @@ def conforms(eng, v, code):
         parts = []
         for n, at in t.alts:
             if at is TNone:
-                continue   # None / bare markers cannot be marshalled
+                if n in ('false', 'true') and code in ('v', 'b'):
+                    parts.append(t.is_(n, v.z))   # the Python constants False / True marshal as boolean
+                continue   # None cannot be marshalled
             parts.append(z3.And(t.is_(n, v.z), conforms(eng, V(at, t.get(n, v.z)), code)))
         return z3.Or(*parts) if parts else z3.BoolVal(False)
     if code in INT_RANGES:
